@@ -73,3 +73,113 @@ class ResourcesAfterReservation:
         return forall_int(lambda k: ((k in result) == (k in res))
                           and implies(k in res and k != constraint.resource, result[k] == res[k])
                           and implies(k == constraint.resource, result[k] == res[k] - n))
+
+
+# ---- the placement step of the sequential placer (which breadth-first, Hilbert, RCM and random placement all reduce to):
+# ---- ONE iteration of `for vertex in movable_vertices:` of sequential.place, extracted mechanically -------------------------
+import z3   # noqa: E402
+from pyvc.values import TTuple, TMap as _TMap, MapV as _MapV, ObjV as _ObjV, fresh_name as _fresh, key_sort as _key_sort, NONE as _NONE   # noqa: E402
+from pyvc import ops as _ops   # noqa: E402
+
+CHIPRES = _TMap(TTuple(TInt(), TInt(), TInt()), TInt())      # (x, y, resource) -> amount still free
+XY = TTuple(TInt(), TInt())
+
+
+def _machine_getitem(E, obj, args, kwargs, st, node):
+    """machine[chip]: the resources of that chip, as a map resource -> amount (a slice of the ghost map g_free)"""
+    g = st.env["g_free"]
+    cx, cy = args[0]
+    ks = _key_sort(CHIPRES.key)
+    r = z3.Int(_fresh("r"))
+    dom = z3.Array(_fresh("chipdom"), z3.IntSort(), z3.BoolSort())
+    val = z3.Array(_fresh("chipval"), z3.IntSort(), z3.IntSort())
+    k = ks.mk(cx, cy, r)
+    _ops.define(dom.decl().name(), z3.ForAll([r], z3.Select(dom, r) == z3.Select(g.dom, k), patterns=[z3.Select(dom, r)]))
+    _ops.define(val.decl().name(), z3.ForAll([r], z3.Select(val, r) == z3.Select(g.arrs[0], k), patterns=[z3.Select(val, r)]))
+    return [(st, _MapV(TInt(), TInt(), dom, [val]), None)]
+
+
+def _machine_setitem(E, obj, args, kwargs, st, node):
+    """machine[chip] = resources: that chip's slice of g_free is replaced, every other chip keeps its resources"""
+    g = st.env["g_free"]
+    (cx, cy), res = args
+    ks = _key_sort(CHIPRES.key)
+    k = z3.Const(_fresh("k"), ks)
+    dom = z3.Array(_fresh("freedom"), ks, z3.BoolSort())
+    val = z3.Array(_fresh("freeval"), ks, z3.IntSort())
+    here = z3.And(ks.f0(k) == cx, ks.f1(k) == cy)
+    _ops.define(dom.decl().name(), z3.ForAll([k], z3.Select(dom, k) == z3.If(here, z3.Select(res.dom, ks.f2(k)), z3.Select(g.dom, k)), patterns=[z3.Select(dom, k)]))
+    _ops.define(val.decl().name(), z3.ForAll([k], z3.Select(val, k) == z3.If(here, z3.Select(res.arrs[0], ks.f2(k)), z3.Select(g.arrs[0], k)), patterns=[z3.Select(val, k)]))
+    s = st.copy()
+    s.env = dict(s.env)
+    s.env["g_free"] = _MapV(g.key, g.val, dom, [val])
+    return [(s, _NONE, None)]
+
+
+def _need_of_vertex(E, obj, args, kwargs, st, node):
+    return [(st, st.env["g_need"], None)]
+
+
+def _next_chip(E, args, kwargs, st, node):
+    """next(chips_iter): some chip (the iterator cycles over the working chips; which one comes next is not modelled)"""
+    from pyvc.values import fresh
+    v, facts = fresh(XY, "nextchip")
+    return [(st.assume(*facts), v)]
+
+
+@contract("rig/place_and_route/place/sequential.py::place@forbody:3")
+class SequentialPlaceStep:
+    """The vertex is put on the first chip offered on which, for EVERY resource it needs, enough is still free; that chip's free
+    resources shrink by exactly the vertex's needs and none becomes negative; every other chip and every other vertex's placement
+    is untouched; the only failure is InsufficientResourceError.  (Dropped by the extraction: constraint handling and vertex / chip
+    ordering around the loop.  Which chip the cyclic iterator offers next, and that it eventually comes round - termination - are
+    not modelled.)"""
+    properties = ("C02",)
+    params = dict(vertex=TInt(), cur_chip=XY, last_successful_chip=XY, placements=_TMap(TInt(), XY),
+                  machine=TRec("Machine"), vertices_resources=TRec("VerticesResources"), chips_iter=TRec("ChipIter"),
+                  g_free=CHIPRES, g_need=RES)
+    fragment_result = ("placements", "cur_chip", "last_successful_chip")
+    modular = ("rig/place_and_route/place/utils.py::subtract_resources", "rig/place_and_route/place/utils.py::overallocated")
+    externals = {"Machine.__getitem__": _machine_getitem, "Machine.__setitem__": _machine_setitem,
+                 "VerticesResources.__getitem__": _need_of_vertex, "next": _next_chip}
+    options = {"var_shapes": {"resources_if_placed": RES}, "while_unroll": 0}
+    raises = {"InsufficientResourceError": None}
+    loop_headers = {1: "while True:"}
+    assumptions = ["machine[chip] / machine[chip] = r are abstracted by a ghost map (x, y, resource) -> amount; vertices_resources[vertex] is the ghost map g_need; "
+                   "the cyclic chip iterator is an arbitrary source of chips: termination of the search is not proved"]
+
+    def native(vertex):
+        _skip()
+
+    def raises_InsufficientResourceError(vertex):
+        return True
+
+    # the search loop changes nothing until it places the vertex
+    def inv_1_nothing_changed_yet(g_free, old_g_free, placements, old_placements):
+        return (forall_int(lambda x, y, r: ((x, y, r) in g_free) == ((x, y, r) in old_g_free)
+                           and implies((x, y, r) in g_free, g_free[(x, y, r)] == old_g_free[(x, y, r)]))
+                and forall_int(lambda v: (v in placements) == (v in old_placements) and implies(v in placements, placements[v] == old_placements[v])))
+
+    def ensures_vertex_placed_on_the_chip_reported(vertex, result):
+        return vertex in result[0] and result[0][vertex] == result[1] and result[2] == result[1]
+
+    def ensures_other_placements_untouched(vertex, old_placements, result):
+        return forall_int(lambda v: implies(v != vertex, (v in result[0]) == (v in old_placements)
+                                            and implies(v in result[0], result[0][v] == old_placements[v])))
+
+    def ensures_that_chip_had_room_for_every_resource_needed(g_need, old_g_free, result):
+        c = result[1]
+        return forall_int(lambda r: implies((c[0], c[1], r) in old_g_free,
+                                            old_g_free[(c[0], c[1], r)] - (g_need[r] if r in g_need else 0) >= 0))
+
+    def ensures_its_free_resources_shrink_by_exactly_the_needs(g_need, old_g_free, g_free_post, result):
+        c = result[1]
+        return forall_int(lambda r: ((c[0], c[1], r) in g_free_post) == ((c[0], c[1], r) in old_g_free)
+                          and implies((c[0], c[1], r) in g_free_post,
+                                      g_free_post[(c[0], c[1], r)] == old_g_free[(c[0], c[1], r)] - (g_need[r] if r in g_need else 0)))
+
+    def ensures_every_other_chip_untouched(old_g_free, g_free_post, result):
+        c = result[1]
+        return forall_int(lambda x, y, r: implies(not (x == c[0] and y == c[1]),
+                                                  ((x, y, r) in g_free_post) == ((x, y, r) in old_g_free)
+                                                  and implies((x, y, r) in g_free_post, g_free_post[(x, y, r)] == old_g_free[(x, y, r)])))
